@@ -36,3 +36,37 @@ pub fn selftest() {
     println!("selftest: {:?}", r);
     assert_eq!(r, Ok((1, 3, 0, Some(520))));
 }
+
+/// Big5 reference, independent of `allsorts::big5`: the WHATWG Big5 index as shipped by the `encoding_rs` crate, reached
+/// through its whole-string API (allsorts uses the streaming encoder/decoder objects). Trusted data, like `flate2`.
+pub mod big5ref {
+    use encoding_rs::BIG5;
+
+    /// The Big5 code of a character: one byte for ASCII, two bytes (big endian) otherwise; None when Big5 has no code.
+    pub fn encode(c: char) -> Option<u16> {
+        let mut buf = [0u8; 4];
+        let s: &str = c.encode_utf8(&mut buf);
+        let (bytes, _, had_errors) = BIG5.encode(s);
+        if had_errors {
+            return None;
+        }
+        match bytes.len() {
+            1 => Some(bytes[0] as u16),
+            2 => Some(u16::from_be_bytes([bytes[0], bytes[1]])),
+            _ => None,
+        }
+    }
+
+    /// The characters a Big5 code stands for (ASCII for one-byte codes below 0x80; four codes decode to a base letter plus
+    /// a combining mark); None when the code is unassigned or malformed.
+    pub fn decode(code: u16) -> Option<Vec<char>> {
+        if code < 0x80 {
+            return Some(vec![code as u8 as char]);
+        }
+        if code < 0x100 {
+            return None;
+        }
+        let bytes = code.to_be_bytes();
+        BIG5.decode_without_bom_handling_and_without_replacement(&bytes).map(|s| s.chars().collect())
+    }
+}
